@@ -15,7 +15,7 @@ Definition src_parse_chunk_size (dbg : bool) (buf : list N) : status * N :=
   end.
 Lemma src_parse_chunk_size_eq dbg buf : src_parse_chunk_size dbg buf = parse_chunk_size dbg buf.
 Proof.
-  unfold src_parse_chunk_size, parse_chunk_size. rewrite tie_chunk.
+  unfold src_parse_chunk_size, parse_chunk_size. rewrite tie_chunk by reflexivity.
   destruct (chunk_loop _ _ _ _ _ _ _); reflexivity.
 Qed.
 
